@@ -219,6 +219,15 @@ def impl_other(ts, cfg, kind, timeout=10.0):
         sh = Shaper(raw_graph=nt_doc(ts), **kw)
         if kind == "shacl":
             text = sh.shex_graph(string_output=True, acceptance_threshold=(k / m), output_format=SHACL_TURTLE)
+        elif kind == "shexc_file":
+            import os
+            d = os.path.join(os.path.dirname(os.path.dirname(os.path.dirname(os.path.abspath(__file__)))), "work", "sink")
+            os.makedirs(d, exist_ok=True)
+            path = os.path.join(d, "out_%d.shex" % os.getpid())
+            sh.shex_graph(output_file=path, acceptance_threshold=(k / m))
+            with open(path, newline="") as f:
+                text = f.read()
+            os.remove(path)
         else:
             text = sh.profile_graph(string_output=True)
         return ("ok", text if isinstance(text, str) else repr(text))
